@@ -328,6 +328,7 @@ class Ctx:
 class Interp:
     def __init__(self, ctx, contracts=None, loop_specs=None, models=None, target=None):
         from . import models as _models
+        from . import arrays as _arrays, nparr as _nparr, dt as _dt  # noqa  (register hooks)
         self.ctx = ctx
         self.contracts = contracts or {}     # (relpath, qual) -> ModularContract
         self.loop_specs = loop_specs or {}   # (relpath, qual) -> {ordinal: LoopSpec}
